@@ -252,6 +252,12 @@ func genC16(r *Rng, tier string) []Case {
 		}
 		add(s)
 	}
+	// byte sequences around the sizes a chunked base64 encoder would cut at (not multiples of 3)
+	for _, n := range []int{47, 48, 49, 57, 58, 255, 256, 257, 1022, 1023, 1024, 1025, 1026, 1027, 2049, 3000, 4096, 4097, 65537} {
+		item := L(Sym("b"), B(r.Bytes(n)))
+		cs = append(cs, Case{"sh_ser_lol", []Sx{L(item)}})
+		cs = append(cs, Case{"sh_ser_pl", []Sx{L(B([]byte("label")), L(L(B([]byte("k")), item)))}})
+	}
 	// numbers: digit strings around the int64 range, leading zeros, signs
 	for _, s := range []string{"9223372036854775807", "9223372036854775808", "-9223372036854775808", "-9223372036854775809",
 		"00000000000000000000000001", "-0", "-", "--1", "+1", "1-", "18446744073709551616", "1.5", "1e3", "0x10", "1_000",
